@@ -562,7 +562,8 @@ func normalizePath(dst, src []byte) []byte {
 	if n >= 0 && n+len(bytestr.StrSlashDotDot) == len(b) {
 		nn := bytes.LastIndexByte(b[:n], '/')
 		if nn < 0 {
-			return bytestr.StrSlash
+			// dst is a reusable buffer of the caller: never hand out the shared constant
+			return append(b[:0], bytestr.StrSlash...)
 		}
 		b = b[:nn+1]
 	}
